@@ -530,7 +530,7 @@ namespace hs
                 if (sut == "ll.new" && r.chance(1, 12))
                 {
                     // operator new without memory, a std::new_handler that frees some / removes itself
-                    p.add("nh", {obj(), (long long)r.below(2), (long long)r.below(200), (long long)r.below(2)});
+                    p.add("nh", {obj(), (long long)r.below(3), (long long)r.below(200), (long long)r.below(2)});
                     break;
                 }
                 if (is_ll && r.chance(1, 15))
